@@ -4,7 +4,7 @@
 
 namespace {
 
-const size_t CAPS[] = {0, 1, 4, 8};
+const size_t CAPS[] = {0, 1, 4, 8, 16};
 
 // caller buffer of capacity c in one of three placements
 struct WBuf {
@@ -62,7 +62,13 @@ void judge_bw(const WBuf& wb, const std::string& name, uint64_t off, const uint8
   res.ok(name + "/stored-in-range");
 }
 
-const char* WKINDS[] = {"u8", "u16b", "u32l", "u64b", "f32l", "f64b", "u16", "u32r"};
+// every kind that has a put_/pput_ accessor (34: all but the read-only 24/48-bit ones)
+std::vector<const Kind*> wkinds() {
+  std::vector<const Kind*> v;
+  for (auto& k : c01::kinds())
+    if (!k.readonly) v.push_back(&k);
+  return v;
+}
 
 }  // namespace
 
@@ -72,8 +78,8 @@ VF_SECTION(bw_grid, 8, 8, 90) {
     for (int which = 0; which < 3; which++) {
       WBuf wb(which, c);
       // typed positional puts
-      for (const char* kn : WKINDS) {
-        const Kind* k = c01::kind(kn);
+      for (const Kind* k : wkinds()) {
+        const char* kn = k->name;
         r.note(std::string("BufferWriter::pput_") + kn);
         if (!r.take()) continue;
         if (r.wants_desc()) r.desc(vf::fmt("BufferWriter(%zu bytes, %s).pput_%s at every offset in G(%zu)", c, wb.name, kn, c));
@@ -86,6 +92,60 @@ VF_SECTION(bw_grid, 8, 8, 90) {
           judge_bw(wb, "BufferWriter::pput<T>", G[i], bytes, k->w, [&](BufferWriter& bw) { k->bw_pput(bw, G[i], v); }, cr);
         });
         c02::fold(r, res, G.size());
+      }
+      // typed cursor puts (every put_* wrapper) with the cursor at 0, at the last position that fits and one beyond
+      for (const Kind* k : wkinds()) {
+        r.note(std::string("BufferWriter::put_") + k->name);
+        if (!r.take()) continue;
+        if (r.wants_desc()) r.desc(vf::fmt("BufferWriter(%zu bytes, %s): put_%s with the cursor at 0, c-%d, c-%d+1", c, wb.name, k->name, k->w, k->w));
+        std::vector<uint64_t> curs = {0};
+        if (c >= (size_t)k->w) curs.push_back(c - k->w);
+        if (c + 1 >= (size_t)k->w) curs.push_back(c + 1 - k->w);
+        r.evals += curs.size() - 1;
+        r.nontrivial += curs.size();
+        uint64_t v = 0xA1B2C3D4E5F60718ull;
+        uint8_t bytes[8];
+        c01::enc(bytes, v, k->w, k->e);
+        auto* res = c02::run_batch(r, curs.size(), [&](size_t i, CaseResult& cr) {
+          const uint64_t cur = curs[i];
+          const bool in = in_range(cur, k->w, c);
+          const std::string name = "BufferWriter::put<T>";
+          cr.arm(name + (in ? ":memory-error-in-range" : ":out-of-range-not-rejected"), vf::fmt("BufferWriter over %zu bytes (%s): write(%llu filler bytes) then put_%s", c, wb.name, (unsigned long long)cur, k->name));
+          std::vector<uint8_t> before = wb.snapshot(), model = before;
+          memset(model.data() + wb.lead, 0x2E, cur);
+          if (in) memcpy(model.data() + wb.lead + cur, bytes, k->w);
+          BufferWriter bw(wb.buf, c);
+          std::string filler(cur, '\x2E'), what;
+          bw.write(filler);
+          std::string oc = vf::outcome([&] { k->bw_put(bw, v); }, &what);
+          std::vector<uint8_t> after = wb.snapshot();
+          memcpy(wb.frame, before.data(), wb.framelen);
+          if (!in && oc == "ok") cr.fail(name + ":out-of-range-not-rejected", "the value does not fit behind the cursor, yet the call returned; buffer " + c01::hexb(after.data(), after.size()));
+          else if (in && oc != "ok") cr.fail(name + ":rejected-in-range", "the value fits; got " + oc + " (" + what + ")");
+          else if (after != model) cr.fail(name + (in ? ":wrong-result" : ":stores-and-throws"), "buffer " + c01::hexb(after.data(), after.size()) + ", model " + c01::hexb(model.data(), model.size()));
+          else cr.ok(in ? name + "/stored-in-range" : name + "/rejects-out-of-range:" + oc);
+        });
+        c02::fold(r, res, curs.size());
+      }
+      // pwrite(offset, data, size) over the whole grid G(c) x G(c): sizes that can never fit come with a one-byte
+      // source (a correct writer throws before it copies)
+      {
+        Exact tiny(1, 0x21);
+        Exact big(c + 2, 0);
+        for (size_t i = 0; i < c + 2; i++) big.p[i] = (uint8_t)(0x31 + i);
+        for (uint64_t off : G) {
+          r.note("BufferWriter::pwrite");
+          if (!r.take()) continue;
+          if (r.wants_desc()) r.desc(vf::fmt("BufferWriter(%zu bytes, %s).pwrite(%s, ptr, every size in G(%zu))", c, wb.name, u64s(off).c_str(), c));
+          r.evals += G.size() - 1;
+          r.nontrivial += G.size();
+          auto* res = c02::run_batch(r, G.size(), [&](size_t i, CaseResult& cr) {
+            const uint64_t sz = G[i];
+            const uint8_t* src = sz <= c + 2 ? big.p : tiny.p;
+            judge_bw(wb, "BufferWriter::pwrite", off, src, sz, [&](BufferWriter& bw) { bw.pwrite(off, src, sz); }, cr);
+          });
+          c02::fold(r, res, G.size());
+        }
       }
       // pwrite(offset, data, size) and pwrite(offset, string)
       for (size_t sz : std::vector<size_t>{0, 1, 2, c, c + 1}) {
@@ -107,7 +167,7 @@ VF_SECTION(bw_grid, 8, 8, 90) {
     }
   }
   r.counters["forks"] += c02::stats().forks;
-  r.bound = "capacity in {0,1,4,8} x {exact-heap, guard-page, canary-frame} x {pput_u8/u16b/u32l/u64b/f32l/f64b/u16/u32r, pwrite(ptr,size in {0,1,2,c,c+1}), pwrite(string)} x every offset in G(c)";
+  r.bound = "capacity in {0,1,4,8,16} x {exact-heap, guard-page, canary-frame} x {all 34 typed pput_*, pwrite(ptr,size in {0,1,2,c,c+1}), pwrite(string)} x every offset in G(c); pwrite(off,ptr,size) on G(c) x G(c); all 34 typed put_* with the cursor at {0, c-w, c-w+1}";
 }
 
 // BufferWriter cursor histories: sequences of appends until and beyond overflow.
@@ -119,20 +179,23 @@ VF_SECTION(bw_hist, 8, 8, 90) {
     for (int which = 0; which < 3; which++) {
       WBuf wb(which, c);
       r.note("BufferWriter cursor histories");
-      for (size_t plen = 0; plen < depth; plen++) {
+      const size_t A = wops.size();
+      for (size_t len = 1; len <= depth; len++) {
+        const size_t plen = len > 2 ? len - 2 : 0, tlen = len - plen, ntail = tlen == 1 ? A : A * A;
         std::vector<uint32_t> pre(plen, 0);
         bool more = true;
         while (more) {
           if (r.take()) {
             auto hname = [&](const std::vector<uint32_t>& h) { std::string s; for (size_t i = 0; i < h.size(); i++) s += (i ? "; " : "") + std::string(wops[h[i]].name); return s.empty() ? std::string("(fresh)") : s; };
-            if (r.wants_desc()) r.desc(vf::fmt("BufferWriter(%zu bytes, %s), history [%s] followed by every append", c, wb.name, hname(pre).c_str()));
-            r.evals += wops.size() - 1;
-            r.nontrivial += wops.size();
-            r.states += wops.size();
-            r.transitions += wops.size() * (plen + 1);
-            auto* res = c02::run_batch(r, wops.size(), [&](size_t last, CaseResult& cr) {
+            if (r.wants_desc()) r.desc(vf::fmt("BufferWriter(%zu bytes, %s), history [%s] followed by every sequence of %zu appends", c, wb.name, hname(pre).c_str(), tlen));
+            r.evals += ntail - 1;
+            r.nontrivial += ntail;
+            r.states += ntail;
+            r.transitions += ntail * len;
+            auto* res = c02::run_batch(r, ntail, [&](size_t tail, CaseResult& cr) {
               std::vector<uint32_t> h = pre;
-              h.push_back((uint32_t)last);
+              if (tlen == 2) h.push_back((uint32_t)(tail / A));
+              h.push_back((uint32_t)(tail % A));
               std::vector<uint8_t> before = wb.snapshot(), model = before;
               size_t cur = 0;
               bool last_fits = false;
@@ -141,7 +204,7 @@ VF_SECTION(bw_hist, 8, 8, 90) {
                 const WOp& o = wops[h[i]];
                 bool fits = in_range(cur, o.w, c);
                 if (fits) {
-                  uint8_t bytes[16];
+                  uint8_t bytes[32];
                   if (o.kind) c01::enc(bytes, 0xA1B2C3D4E5F60718ull + i, o.w, c01::kind(o.kind)->e);
                   else for (int q = 0; q < o.w; q++) bytes[q] = (uint8_t)(0x41 + i);
                   memcpy(model.data() + wb.lead + cur, bytes, o.w);
@@ -167,7 +230,7 @@ VF_SECTION(bw_hist, 8, 8, 90) {
               else if (after != model) cr.fail(nm + (last_fits ? ":wrong-result" : ":stores-and-throws"), "buffer " + c01::hexb(after.data(), after.size()) + ", model " + c01::hexb(model.data(), model.size()));
               else cr.ok(last_fits ? "append/stored" : "append/rejected:" + oc);
             });
-            c02::fold(r, res, wops.size());
+            c02::fold(r, res, ntail);
           }
           size_t i = plen;
           for (;;) {
@@ -181,7 +244,7 @@ VF_SECTION(bw_hist, 8, 8, 90) {
     }
   }
   r.counters["forks"] += c02::stats().forks;
-  r.bound = vf::fmt("capacity in {0,1,4,8} x 3 placements: every sequence of <= %zu appends from {put_u8, put_u16b, put_u32l, put_u64b, write(0|c|c+1 bytes)}", depth);
+  r.bound = vf::fmt("capacity in {0,1,4,8,16} x 3 placements: every sequence of <= %zu appends from {put_u8, put_u16b, put_u32l, put_u64b, write(0|c|c+1 bytes)}", depth);
 }
 
 // StringWriter::pput_*: grows to cover the write, or throws; never anything else.
@@ -195,14 +258,33 @@ VF_SECTION(sw_grid, 4, 4, 90) {
     for (uint64_t k = 0; k <= 8; k++) offs.push_back(0 - (uint64_t)s - k);
     std::sort(offs.begin(), offs.end());
     offs.erase(std::unique(offs.begin(), offs.end()), offs.end());
-    for (const char* kn : WKINDS) {
-      const Kind* k = c01::kind(kn);
+    for (const Kind* k : wkinds()) {
+      const char* kn = k->name;
       r.note(std::string("StringWriter::pput_") + kn);
       if (!r.take()) continue;
       if (r.wants_desc()) r.desc(vf::fmt("StringWriter holding %zu bytes: pput_%s at every boundary offset", s, kn));
-      r.evals += offs.size() - 1;
-      r.nontrivial += offs.size();
-      auto* res = c02::run_batch(r, offs.size(), [&](size_t i, CaseResult& cr) {
+      r.evals += offs.size();
+      r.nontrivial += offs.size() + 1;
+      auto* res = c02::run_batch(r, offs.size() + 1, [&](size_t i, CaseResult& cr) {
+        if (i == offs.size()) {
+          // the cursor form of the same kind: put_* appends exactly its bytes
+          const std::string nm = "StringWriter::put<T>";
+          cr.arm(nm + ":memory-error", vf::fmt("StringWriter holding %zu bytes: put_%s", s, kn));
+          StringWriter sw;
+          std::string init;
+          for (size_t q = 0; q < s; q++) init += (char)(0x41 + q);
+          sw.write(init.data(), init.size());
+          sw.str().shrink_to_fit();
+          uint64_t v = 0xA1B2C3D4E5F60718ull;
+          uint8_t bytes[8];
+          c01::enc(bytes, v, k->w, k->e);
+          std::string what;
+          std::string oc = vf::outcome([&] { k->sw_put(sw, v); }, &what);
+          if (oc != "ok") cr.fail(nm + ":rejected-in-range", "an append can always grow the buffer; got " + oc + " (" + what + ")");
+          else if (sw.str() != init + std::string((const char*)bytes, k->w) || sw.size() != s + k->w) cr.fail(nm + ":wrong-result", "contents " + c01::hexb(sw.str().data(), sw.str().size()));
+          else cr.ok("put/appended");
+          return;
+        }
         const uint64_t off = offs[i];
         const bool huge = off >= (1ull << 63) - 1;
         const std::string nm = "StringWriter::pput<T>";
@@ -232,9 +314,409 @@ VF_SECTION(sw_grid, 4, 4, 90) {
         if (now != model) { cr.fail(nm + ":wrong-result", "contents " + c01::hexb(now.data(), now.size()) + ", model " + c01::hexb(model.data(), model.size())); return; }
         cr.ok(off + k->w <= s ? "pput/overwrite" : "pput/grew");
       });
-      c02::fold(r, res, offs.size());
+      c02::fold(r, res, offs.size() + 1);
     }
   }
   r.counters["forks"] += c02::stats().forks;
-  r.bound = "StringWriter holding 0/3/20/40 bytes x pput_{u8,u16b,u32l,u64b,f32l,f64b,u16,u32r} x offsets {0,1,size-1,size,size+3, 2^63-1, 2^63, 2^63+1, 2^64-size-8..2^64-size, 2^64-16..2^64-1}";
+  r.bound = "StringWriter holding 0/3/20/40 bytes x all 34 typed pput_* x offsets {0,1,size-1,size,size+3, 2^63-1, 2^63, 2^63+1, 2^64-size-8..2^64-size, 2^64-16..2^64-1}; all 34 typed put_* appended to each";
+}
+
+// ---------------------------------------------------------------------------------------------------
+// Cursor histories with sizes from the wrap grid, relative to the *current* cursor (round 2).
+// A history is a sequence of letters; every call is judged against the model (an append or positional
+// store that fits succeeds and stores exactly there; one that does not throws and changes nothing;
+// positional stores never move the cursor), and the final buffer (canary frame included) is compared.
+namespace {
+
+struct T3 { uint8_t b[3]; };
+struct T16 { uint8_t b[16]; };
+
+enum BLType { BL_PUT, BL_PUT3, BL_PUT16, BL_WRITE, BL_WRITESTR, BL_PWRITE, BL_PPUT };
+// symbolic values over capacity c and current cursor cur
+enum BSym { S0, S1, SREMm1, SREM, SREMp1, S2_31, S2_32, S2_63m1, S2_63, SWRAPm1, SWRAP, SWRAPp1, SCAPWRAP, SMAXm1, SMAX, SCUR, SCAP, SCAPp1, SCAPm1, SCAPm3, SCAPm4, SM3, SM4, NBSYM };
+const char* bsym_name[] = {"0", "1", "c-cur-1", "c-cur", "c-cur+1", "2^31", "2^32", "2^63-1", "2^63", "2^64-cur-1", "2^64-cur", "2^64-cur+1", "2^64-c", "2^64-2", "2^64-1", "cur", "c", "c+1", "c-1", "c-3", "c-4", "2^64-3", "2^64-4"};
+uint64_t bval(int s, uint64_t c, uint64_t cur) {
+  switch (s) {
+    case S0: return 0;
+    case S1: return 1;
+    case SREMm1: return c - cur - 1;
+    case SREM: return c - cur;
+    case SREMp1: return c - cur + 1;
+    case S2_31: return 1ull << 31;
+    case S2_32: return 1ull << 32;
+    case S2_63m1: return (1ull << 63) - 1;
+    case S2_63: return 1ull << 63;
+    case SWRAPm1: return 0 - cur - 1;
+    case SWRAP: return 0 - cur;
+    case SWRAPp1: return 0 - cur + 1;
+    case SCAPWRAP: return 0 - c;
+    case SMAXm1: return ~0ull - 1;
+    case SMAX: return ~0ull;
+    case SCUR: return cur;
+    case SCAP: return c;
+    case SCAPp1: return c + 1;
+    case SCAPm1: return c - 1;
+    case SCAPm3: return c - 3;
+    case SCAPm4: return c - 4;
+    case SM3: return 0 - 3ull;
+    default: return 0 - 4ull;
+  }
+}
+
+struct BLetter {
+  BLType t;
+  const Kind* k;
+  int so, ss;  // offset symbol (positional forms), size symbol
+  std::string name;
+  const char* stem;
+};
+
+std::vector<BLetter> bw_letters() {
+  std::vector<BLetter> L;
+  for (const char* kn : {"u8", "u16b", "u32l", "u64b", "s16r", "f64l"}) L.push_back({BL_PUT, c01::kind(kn), 0, 0, std::string("put_") + kn, "BufferWriter::put<T>"});
+  L.push_back({BL_PUT3, nullptr, 0, 0, "put<3-byte struct>", "BufferWriter::put<T>"});
+  L.push_back({BL_PUT16, nullptr, 0, 0, "put<16-byte struct>", "BufferWriter::put<T>"});
+  for (int s = S0; s <= SMAX; s++) L.push_back({BL_WRITE, nullptr, 0, s, std::string("write(ptr, ") + bsym_name[s] + ")", "BufferWriter::write"});
+  for (int s : {S0, S1, SREM, SREMp1}) L.push_back({BL_WRITESTR, nullptr, 0, s, std::string("write(string of ") + bsym_name[s] + ")", "BufferWriter::write(string)"});
+  const int pw[][2] = {{SCUR, SREM}, {SCUR, SREMp1}, {SCUR, SWRAP}, {S1, SMAX}, {SMAX, S1}, {SCAP, S0}, {SCAPp1, S0}, {S0, SCAP}};
+  for (auto& p : pw) L.push_back({BL_PWRITE, nullptr, p[0], p[1], std::string("pwrite(") + bsym_name[p[0]] + ", ptr, " + bsym_name[p[1]] + ")", "BufferWriter::pwrite"});
+  for (int s : {SCUR, SCAPm1, SCAP, SMAX}) L.push_back({BL_PPUT, c01::kind("u8"), s, 0, std::string("pput_u8(") + bsym_name[s] + ")", "BufferWriter::pput<T>"});
+  for (int s : {SCUR, SCAPm4, SCAPm3, SM4, SM3}) L.push_back({BL_PPUT, c01::kind("u32l"), s, 0, std::string("pput_u32l(") + bsym_name[s] + ")", "BufferWriter::pput<T>"});
+  return L;
+}
+
+// what a letter means in the state (c, cur): target offset, width, and whether it moves the cursor
+struct BAct { uint64_t off, w; bool cursor; };
+BAct bw_act(const BLetter& l, uint64_t c, uint64_t cur) {
+  switch (l.t) {
+    case BL_PUT: return {cur, (uint64_t)l.k->w, true};
+    case BL_PUT3: return {cur, 3, true};
+    case BL_PUT16: return {cur, 16, true};
+    case BL_WRITE: case BL_WRITESTR: return {cur, bval(l.ss, c, cur), true};
+    case BL_PWRITE: return {bval(l.so, c, cur), bval(l.ss, c, cur), false};
+    default: return {bval(l.so, c, cur), (uint64_t)l.k->w, false};
+  }
+}
+
+struct BwSources {
+  // src[i][k]: k bytes for step i (k <= c+17); tiny: one byte, handed over with sizes that can never fit
+  std::vector<std::vector<std::unique_ptr<Exact>>> src;
+  Exact tiny;
+  size_t maxk;
+  BwSources(size_t c, size_t steps) : tiny(1, 0x21), maxk(c + 17) {
+    src.resize(steps);
+    for (size_t i = 0; i < steps; i++)
+      for (size_t k = 0; k <= maxk; k++) {
+        src[i].emplace_back(new Exact(k, 0));
+        for (size_t q = 0; q < k; q++) src[i][k]->p[q] = (uint8_t)(0x41 + 0x20 * i + q);
+      }
+  }
+  const uint8_t* get(size_t step, uint64_t k) const { return k <= maxk ? src[step][k]->p : tiny.p; }
+};
+
+std::string bw_hist_desc(const WBuf& wb, const std::vector<BLetter>& L, const std::vector<uint32_t>& h, int ctx) {
+  std::string s = vf::fmt("BufferWriter over %zu bytes (%s):", wb.c, wb.name);
+  uint64_t cur = 0;
+  for (size_t i = 0; i < h.size(); i++) {
+    BAct a = bw_act(L[h[i]], wb.c, cur);
+    bool fits = in_range(a.off, a.w, wb.c);
+    s += vf::fmt("%s %s [cursor %llu: %s bytes at %s, %s]", i ? ";" : "", L[h[i]].name.c_str(), (unsigned long long)cur, u64s(a.w).c_str(), u64s(a.off).c_str(), fits ? "fits" : "does not fit");
+    if (fits && a.cursor) cur += a.w;
+  }
+  return s + c02::ctx_name(ctx);
+}
+
+void run_bw_history(const WBuf& wb, const BwSources& S, const std::vector<BLetter>& L, const std::vector<uint32_t>& h, int ctx, CaseResult& cr) {
+  const size_t c = wb.c;
+  std::vector<uint8_t> before = wb.snapshot(), model = before;
+  BufferWriter bw(wb.buf, c);
+  uint64_t cur = 0;
+  std::string failure_key, failure;
+  for (size_t i = 0; i < h.size() && failure.empty(); i++) {
+    const BLetter& l = L[h[i]];
+    const BAct a = bw_act(l, c, cur);
+    const bool fits = in_range(a.off, a.w, c);
+    uint8_t bytes[32];
+    const uint8_t* srcp = bytes;
+    const uint64_t v = 0xA1B2C3D4E5F60718ull + 0x0101010101010101ull * i;
+    if (l.t == BL_PUT || l.t == BL_PPUT) c01::enc(bytes, v, l.k->w, l.k->e);
+    else if (l.t == BL_PUT3 || l.t == BL_PUT16) { for (size_t q = 0; q < a.w; q++) bytes[q] = (uint8_t)(0xB0 + 0x10 * i + q); }
+    else srcp = S.get(i, a.w);
+    if (fits) memcpy(model.data() + wb.lead + a.off, srcp, a.w);
+    cr.arm_key(fits ? (std::string(l.stem) + ":memory-error-in-range").c_str() : (std::string(l.stem) + ":out-of-range-not-rejected").c_str());
+    std::string what, oc;
+    auto call = [&] {
+      oc = vf::outcome([&] {
+        switch (l.t) {
+          case BL_PUT: l.k->bw_put(bw, v); break;
+          case BL_PUT3: { T3 t; memcpy(t.b, bytes, 3); bw.put<T3>(t); break; }
+          case BL_PUT16: { T16 t; memcpy(t.b, bytes, 16); bw.put(t); break; }
+          case BL_WRITE: bw.write(srcp, a.w); break;
+          case BL_WRITESTR: { std::string str((const char*)srcp, a.w <= S.maxk ? a.w : 0); bw.write(str); break; }
+          case BL_PWRITE: bw.pwrite(a.off, srcp, a.w); break;
+          case BL_PPUT: l.k->bw_pput(bw, a.off, v); break;
+        }
+      }, &what);
+    };
+    if (i + 1 == h.size()) c02::in_context(ctx, call);
+    else call();
+    if (fits && oc != "ok") { failure_key = std::string(l.stem) + ":rejected-in-range"; failure = vf::fmt("step %zu (%s) fits; got %s (%s)", i + 1, l.name.c_str(), oc.c_str(), what.c_str()); }
+    else if (!fits && oc == "ok") { failure_key = std::string(l.stem) + ":out-of-range-not-rejected"; failure = vf::fmt("step %zu (%s): offset+size exceeds the buffer, yet the call returned", i + 1, l.name.c_str()); }
+    if (fits && a.cursor) cur += a.w;
+  }
+  std::vector<uint8_t> after = wb.snapshot();
+  memcpy(wb.frame, before.data(), wb.framelen);  // restore for the next history of the batch
+  if (failure.empty() && after != model) {
+    const BLetter& l = L[h.back()];
+    BAct a{0, 0, false};
+    uint64_t cc = 0;
+    for (size_t i = 0; i < h.size(); i++) { a = bw_act(L[h[i]], c, cc); if (in_range(a.off, a.w, c) && a.cursor) cc += a.w; }
+    failure_key = std::string(l.stem) + (in_range(a.off, a.w, c) ? ":wrong-result" : ":stores-and-throws");
+    failure = "buffer " + c01::hexb(after.data(), after.size()) + ", model " + c01::hexb(model.data(), model.size());
+  }
+  if (!failure.empty()) {
+    cr.set(cr.msg, sizeof(cr.msg), bw_hist_desc(wb, L, h, ctx));
+    cr.fail(failure_key, failure);
+  } else cr.ok(vf::fmt("history of %zu/%s", h.size(), in_range(bw_act(L[h.back()], c, cur).off, 0, c) ? "ends inside" : "ends outside"));
+}
+
+// enumerates histories of length len as (prefix of max(0,len-2) letters) x (tail of min(len,2) letters):
+// one case = one prefix with every tail
+template <class F>
+void for_each_prefix(size_t nletters, size_t plen, F&& f) {
+  std::vector<uint32_t> pre(plen, 0);
+  for (;;) {
+    f(pre);
+    size_t i = plen;
+    for (;;) {
+      if (i == 0) return;
+      i--;
+      if (++pre[i] < nletters) break;
+      pre[i] = 0;
+    }
+  }
+}
+
+}  // namespace
+
+VF_SECTION(bw_cursor, 16, 16, 90) {
+  const auto L = bw_letters();
+  const size_t A = L.size();
+  const size_t depth = 3;
+  for (size_t c : CAPS) {
+    BwSources S(c, 4);
+    for (int which = 0; which < 3; which++) {
+      WBuf wb(which, c);
+      r.note(vf::fmt("BufferWriter cursor histories c=%zu %s", c, wb.name));
+      // thorough: one more level on the guard-page placement
+      const size_t maxlen = (r.thorough() && which == 1) ? depth + 1 : depth;
+      for (size_t len = 1; len <= maxlen; len++) {
+        const size_t plen = len > 2 ? len - 2 : 0, tlen = len - plen;
+        const size_t ntail = tlen == 1 ? A : A * A;
+        for (int ctx = 0; ctx < (len <= 2 ? (int)c02::NCTX : 1); ctx++) {
+          for_each_prefix(A, plen, [&](const std::vector<uint32_t>& pre) {
+            if (!r.take()) return;
+            auto hist_of = [&](size_t t) {
+              std::vector<uint32_t> h = pre;
+              if (tlen == 2) h.push_back((uint32_t)(t / A));
+              h.push_back((uint32_t)(t % A));
+              return h;
+            };
+            if (r.wants_desc()) r.desc(bw_hist_desc(wb, L, pre, ctx) + vf::fmt(" followed by every sequence of %zu letters (%zu letters)", tlen, A));
+            r.evals += ntail - 1;
+            r.nontrivial += ntail;
+            r.states += ntail;
+            r.transitions += ntail * len;
+            auto* res = c02::run_batch(r, ntail, [&](size_t t, CaseResult& cr) { run_bw_history(wb, S, L, hist_of(t), ctx, cr); },
+                [&](size_t t) { return bw_hist_desc(wb, L, hist_of(t), ctx); });
+            c02::fold(r, res, ntail);
+          });
+        }
+      }
+    }
+  }
+  if (r.shard == 0) r.counters["letters"] += A;
+  r.counters["forks"] += c02::stats().forks;
+  r.bound = vf::fmt("capacity in {0,1,4,8,16} x {exact-heap, guard-page, canary-frame}: every sequence of <= 3 letters%s from the %zu-letter alphabet {put_u8/u16b/u32l/u64b/s16r/f64l, put<3-byte T>, put<16-byte T>; write(ptr, k) for k in {0,1,c-cur-1,c-cur,c-cur+1,2^31,2^32,2^63-1,2^63,2^64-cur-1,2^64-cur,2^64-cur+1,2^64-c,2^64-2,2^64-1}; write(string of 0|1|c-cur|c-cur+1); pwrite(off,ptr,k) at 8 (off,k) boundary pairs incl. (cur,2^64-cur), (1,2^64-1), (2^64-1,1); pput_u8 / pput_u32l at cur, c-4..c, 2^64-4..2^64-1}, sizes relative to the current cursor; histories of <= 2 letters also with the last call inside a catch handler / during unwinding / with errno set", r.thorough() ? " (4 on the guard-page placement)" : "", A);
+}
+
+// ---------------------------------------------------------------------------------------------------
+// StringWriter histories: appends, positional puts, extension and reset on a writer that already holds
+// data.  Model: a std::string.  Small writes grow the data to cover the write; a write that cannot be
+// covered (size or offset at or beyond 2^63-1, or wrapping) must throw and leave the contents alone.
+namespace {
+
+enum SLType { SL_PUT, SL_PUT3, SL_WRITE, SL_WRITESTR, SL_PPUT, SL_EXTBY, SL_EXTTO, SL_RESET };
+enum SSym { Z0, Z1, Z5, Z16, Z2_63m1, Z2_63, ZWRAPm1, ZWRAP, ZWRAPp1, ZMAXm1, ZMAX, ZSZm1, ZSZ, ZSZp2, ZSZp3, ZWRAPm8, ZM8, NSSYM };
+const char* ssym_name[] = {"0", "1", "5", "16", "2^63-1", "2^63", "2^64-size-1", "2^64-size", "2^64-size+1", "2^64-2", "2^64-1", "size-1", "size", "size+2", "size+3", "2^64-size-8", "2^64-8"};
+uint64_t sval(int s, uint64_t size) {
+  switch (s) {
+    case Z0: return 0;
+    case Z1: return 1;
+    case Z5: return 5;
+    case Z16: return 16;
+    case Z2_63m1: return (1ull << 63) - 1;
+    case Z2_63: return 1ull << 63;
+    case ZWRAPm1: return 0 - size - 1;
+    case ZWRAP: return 0 - size;
+    case ZWRAPp1: return 0 - size + 1;
+    case ZMAXm1: return ~0ull - 1;
+    case ZMAX: return ~0ull;
+    case ZSZm1: return size - 1;
+    case ZSZ: return size;
+    case ZSZp2: return size + 2;
+    case ZSZp3: return size + 3;
+    case ZWRAPm8: return 0 - size - 8;
+    default: return 0 - 8ull;
+  }
+}
+struct SLetter {
+  SLType t;
+  const Kind* k;
+  int sym;
+  std::string name;
+  const char* stem;
+};
+std::vector<SLetter> sw_letters() {
+  std::vector<SLetter> L;
+  for (const char* kn : {"u8", "u16b", "u32l", "u64b", "s32r", "f32"}) L.push_back({SL_PUT, c01::kind(kn), 0, std::string("put_") + kn, "StringWriter::put<T>"});
+  L.push_back({SL_PUT3, nullptr, 0, "put<3-byte struct>", "StringWriter::put<T>"});
+  for (int s : {Z0, Z1, Z5, Z16, Z2_63m1, Z2_63, ZWRAPm1, ZWRAP, ZWRAPp1, ZMAXm1, ZMAX}) L.push_back({SL_WRITE, nullptr, s, std::string("write(ptr, ") + ssym_name[s] + ")", "StringWriter::write"});
+  for (int s : {Z0, Z1, Z16}) L.push_back({SL_WRITESTR, nullptr, s, std::string("write(string of ") + ssym_name[s] + ")", "StringWriter::write(string)"});
+  for (const char* kn : {"u8", "u32l", "u64b"})
+    for (int s : {Z0, ZSZm1, ZSZ, ZSZp3, Z2_63m1, Z2_63, ZWRAPm8, ZWRAPm1, ZWRAP, ZM8, ZMAX}) L.push_back({SL_PPUT, c01::kind(kn), s, std::string("pput_") + kn + "(" + ssym_name[s] + ")", "StringWriter::pput<T>"});
+  for (int s : {Z0, Z1, Z5, Z2_63, ZWRAP, ZMAX}) L.push_back({SL_EXTBY, nullptr, s, std::string("extend_by(") + ssym_name[s] + ")", "StringWriter::extend_by"});
+  for (int s : {Z0, ZSZ, ZSZp2}) L.push_back({SL_EXTTO, nullptr, s, std::string("extend_to(") + ssym_name[s] + ")", "StringWriter::extend_to"});
+  L.push_back({SL_RESET, nullptr, 0, "reset()", "StringWriter::reset"});
+  return L;
+}
+
+const uint64_t SW_SMALL = 64;                  // everything the alphabet can legitimately ask for is below this
+const uint64_t SW_HUGE = (1ull << 63) - 1;     // at or above: beyond every std::string::max_size()
+
+std::string sw_hist_desc(size_t init, int mode, const std::vector<SLetter>& L, const std::vector<uint32_t>& h, int ctx) {
+  std::string s = vf::fmt("StringWriter holding %zu bytes%s:", init, mode ? " (heap block shrunk to fit before every call)" : "");
+  for (size_t i = 0; i < h.size(); i++) s += (i ? "; " : " ") + L[h[i]].name;
+  return s + c02::ctx_name(ctx);
+}
+
+void run_sw_history(size_t init, int mode, const Exact& src, const Exact& tiny, const std::vector<SLetter>& L, const std::vector<uint32_t>& h, int ctx, CaseResult& cr) {
+  StringWriter sw;
+  std::string model;
+  for (size_t q = 0; q < init; q++) model += (char)(0x41 + q);
+  sw.write(model);
+  std::string failure_key, failure;
+  auto describe_step = [&](size_t i) { return vf::fmt("step %zu (%s, size() was %zu)", i + 1, L[h[i]].name.c_str(), model.size()); };
+  for (size_t i = 0; i < h.size() && failure.empty(); i++) {
+    const SLetter& l = L[h[i]];
+    const uint64_t size = model.size();
+    const uint64_t x = sval(l.sym, size);
+    const uint64_t v = 0xA1B2C3D4E5F60718ull + 0x0101010101010101ull * i;
+    uint8_t bytes[8];
+    if (l.k) c01::enc(bytes, v, l.k->w, l.k->e);
+    if (mode) sw.str().shrink_to_fit();
+    // expectation: 'G' grows/stores per `want`, 'T' must throw with contents unchanged, 'D' don't-care (executed; model follows the object)
+    char expect = 'G';
+    std::string want = model;
+    switch (l.t) {
+      case SL_PUT: want.append((const char*)bytes, l.k->w); break;
+      case SL_PUT3: want.append("\xC1\xC2\xC3", 3); break;
+      case SL_WRITE: case SL_WRITESTR:
+        if (x <= SW_SMALL) want.append((const char*)src.p, x);
+        else expect = x >= SW_HUGE ? 'T' : 'D';
+        break;
+      case SL_PPUT:
+        if (x <= SW_SMALL + size) {
+          if (want.size() < x + l.k->w) want.resize(x + l.k->w, '\0');
+          memcpy(want.data() + x, bytes, l.k->w);
+        } else expect = x >= SW_HUGE ? 'T' : 'D';
+        break;
+      case SL_EXTBY:
+        // extension is not a write of caller data; the statement is silent about sums that wrap or exceed max_size
+        if (x <= SW_SMALL) want.resize(size + x, '\0');
+        else expect = 'D';
+        break;
+      case SL_EXTTO:
+        if (x >= size && x <= size + SW_SMALL) want.resize(x, '\0');
+        else expect = 'D';  // shrinking through extend_to: not a write
+        break;
+      case SL_RESET: expect = 'D'; break;
+    }
+    cr.arm_key((std::string(l.stem) + (expect == 'T' ? ":neither-grows-nor-throws" : ":memory-error")).c_str());
+    std::string what, oc;
+    auto call = [&] {
+      oc = vf::outcome([&] {
+        switch (l.t) {
+          case SL_PUT: l.k->sw_put(sw, v); break;
+          case SL_PUT3: { T3 t{{0xC1, 0xC2, 0xC3}}; sw.put(t); break; }
+          case SL_WRITE: sw.write(x <= SW_SMALL ? src.p : tiny.p, x); break;
+          case SL_WRITESTR: { std::string str((const char*)src.p, x <= SW_SMALL ? x : 0); sw.write(str); break; }
+          case SL_PPUT: l.k->sw_pput(sw, x, v); break;
+          case SL_EXTBY: sw.extend_by(x); break;
+          case SL_EXTTO: sw.extend_to(x); break;
+          case SL_RESET: sw.reset(); break;
+        }
+      }, &what);
+    };
+    if (i + 1 == h.size()) c02::in_context(ctx, call);
+    else call();
+    const std::string& now = sw.str();
+    if (now.size() != sw.size()) { failure_key = std::string(l.stem) + ":wrong-result"; failure = describe_step(i) + vf::fmt(": size() = %zu but str().size() = %zu", sw.size(), now.size()); break; }
+    if (now.size() > 4096) { failure_key = std::string(l.stem) + ":wrong-result"; failure = describe_step(i) + vf::fmt(": the writer now holds %zu bytes", now.size()); break; }
+    if (expect == 'D') { model = now; continue; }
+    if (expect == 'T') {
+      if (oc == "ok") { failure_key = std::string(l.stem) + ":neither-grows-nor-throws"; failure = describe_step(i) + vf::fmt(": cannot be covered, yet the call returned; size() = %zu", now.size()); }
+      else if (now != model) { failure_key = std::string(l.stem) + ":stores-and-throws"; failure = describe_step(i) + ": threw " + oc + " and changed the contents to " + c01::hexb(now.data(), std::min<size_t>(now.size(), 64)); }
+      continue;
+    }
+    if (oc != "ok") { failure_key = std::string(l.stem) + ":rejected-in-range"; failure = describe_step(i) + ": a small write can always grow the buffer; got " + oc + " (" + what + ")"; }
+    else if (now.size() < want.size()) { failure_key = std::string(l.stem) + ":neither-grows-nor-throws"; failure = describe_step(i) + vf::fmt(": returned normally with size() = %zu, which does not cover the write (model %zu)", now.size(), want.size()); }
+    else if (now != want) { failure_key = std::string(l.stem) + ":wrong-result"; failure = describe_step(i) + ": contents " + c01::hexb(now.data(), std::min<size_t>(now.size(), 96)) + ", model " + c01::hexb(want.data(), std::min<size_t>(want.size(), 96)); }
+    model = want;
+  }
+  if (!failure.empty()) {
+    cr.set(cr.msg, sizeof(cr.msg), sw_hist_desc(init, mode, L, h, ctx));
+    cr.fail(failure_key, failure);
+  } else cr.ok(vf::fmt("history of %zu/final size %s", h.size(), model.size() <= 15 ? "small-string" : "heap"));
+}
+
+}  // namespace
+
+VF_SECTION(sw_hist, 16, 16, 90) {
+  const auto L = sw_letters();
+  const size_t A = L.size();
+  Exact src(SW_SMALL, 0), tiny(1, 0x21);
+  for (size_t q = 0; q < SW_SMALL; q++) src.p[q] = (uint8_t)(0x61 + q % 26);
+  for (size_t init : std::vector<size_t>{0, 3, 20}) {
+    for (int mode = 0; mode < 2; mode++) {
+      r.note(vf::fmt("StringWriter histories init=%zu mode=%d", init, mode));
+      const size_t maxlen = (r.thorough() && mode == 1 && init == 3) ? 4 : 3;
+      for (size_t len = 1; len <= maxlen; len++) {
+        const size_t plen = len > 2 ? len - 2 : 0, tlen = len - plen;
+        const size_t ntail = tlen == 1 ? A : A * A;
+        for (int ctx = 0; ctx < (len <= 2 ? (int)c02::NCTX : 1); ctx++) {
+          for_each_prefix(A, plen, [&](const std::vector<uint32_t>& pre) {
+            if (!r.take()) return;
+            auto hist_of = [&](size_t t) {
+              std::vector<uint32_t> h = pre;
+              if (tlen == 2) h.push_back((uint32_t)(t / A));
+              h.push_back((uint32_t)(t % A));
+              return h;
+            };
+            if (r.wants_desc()) r.desc(sw_hist_desc(init, mode, L, pre, ctx) + vf::fmt(" followed by every sequence of %zu letters (%zu letters)", tlen, A));
+            r.evals += ntail - 1;
+            r.nontrivial += ntail;
+            r.states += ntail;
+            r.transitions += ntail * len;
+            auto* res = c02::run_batch(r, ntail, [&](size_t t, CaseResult& cr) { run_sw_history(init, mode, src, tiny, L, hist_of(t), ctx, cr); },
+                [&](size_t t) { return sw_hist_desc(init, mode, L, hist_of(t), ctx); });
+            c02::fold(r, res, ntail);
+          });
+        }
+      }
+    }
+  }
+  if (r.shard == 0) r.counters["letters"] += A;
+  r.counters["forks"] += c02::stats().forks;
+  r.bound = vf::fmt("StringWriter holding 0/3/20 bytes x {as grown, heap block shrunk to fit before every call}: every sequence of <= 3 letters%s from the %zu-letter alphabet {put_u8/u16b/u32l/u64b/s32r/f32, put<3-byte T>; write(ptr, k) for k in {0,1,5,16,2^63-1,2^63,2^64-size-1,2^64-size,2^64-size+1,2^64-2,2^64-1}; write(string of 0|1|16); pput_u8/u32l/u64b at {0,size-1,size,size+3,2^63-1,2^63,2^64-size-8,2^64-size-1,2^64-size,2^64-8,2^64-1}; extend_by, extend_to, reset()}, sizes and offsets relative to the current size; histories of <= 2 letters also with the last call inside a catch handler / during unwinding / with errno set", r.thorough() ? " (4 on the shrunk variant holding 3 bytes)" : "", A);
 }
